@@ -108,7 +108,10 @@ fn main() {
                 }
             };
             let t0 = std::time::Instant::now();
-            let limit = std::env::var("VERIF_HANG_MS").ok().and_then(|s| s.parse().ok()).unwrap_or(60_000u64);
+            let mut limit = std::env::var("VERIF_HANG_MS").ok().and_then(|s| s.parse().ok()).unwrap_or(60_000u64);
+            if std::fs::read_to_string(&file).map(|t| t.contains("different histories in different processes")).unwrap_or(false) {
+                limit = limit.max(900_000); // re-executes two workers' runs up to the recorded one
+            }
             let prop = std::fs::read(&file).ok().and_then(|b| serde_json::from_slice::<serde_json::Value>(&b).ok()).map(|v| v["property"].as_str().unwrap_or("?").to_string()).unwrap_or_else(|| "?".into());
             loop {
                 match ch.try_wait() {
